@@ -72,6 +72,28 @@ def judge_line(text, impl, aux, lk):
         return None
     f = fields(impl)
     kind = impl.split(" ")[1]
+    if f["raw"] == "float" and impl.split(" ")[1] == "conv" and aux and aux.get("top") not in (None, "float") and "->" in text:
+        # a machine-float ratio (a fractional power in the target): numeral x factor x unit is the quantity to 1e-5
+        names = parse_dims(f["rawunit"]) if f["rawunit"] != "none" else {}
+        K = 1.0
+        for n, p in names.items():
+            e = lk.get(n)
+            if e is None or e["v"] == "float":
+                return None
+            K *= float(frac(e["v"])) ** p
+        if unhexs(f["factor"]): K *= int(unhexs(f["factor"]))
+        if unhexs(f["div"]): K /= int(unhexs(f["div"]))
+        t = unhexs(f["approx"]) or unhexs(f["exact"])
+        import re
+        m = re.match(r"^(-?[0-9]+(?:\.[0-9]+)?)(?:e(-?[0-9]+))?$", t or "")
+        base, _ = base_and_mode(text)
+        if not m or base != 10:
+            return None
+        v = float(m.group(1)) * (10.0 ** int(m.group(2)) if m.group(2) else 1.0)
+        want = float(frac(aux["top"]))
+        if want != 0 and abs(v * K - want) > 1e-4 * abs(want):
+            return "approximate numeral %r x factor x unit = %g, the quantity is %g" % (t, v * K, want)
+        return None
     if f["raw"] in ("none", "float") or f["raw"] is None:
         return None
     raw = frac(f["raw"]); rawd = parse_dims(f["rawd"])
